@@ -1,5 +1,6 @@
 import MsiProofs.Props.C01
 import MsiProofs.Lemmas.EndToEnd
+import MsiProofs.Lemmas.Lifecycle
 /-
 C01, end to end on the model — from any state satisfying the package invariants (reference counts
 exact up to a slack, keys ascending, metadata streams in sync, catalog tables in sync with the table
@@ -24,5 +25,65 @@ def reopen_after_history := @MsiProofs.EndToEnd.reopen_after_history
 def op_kept := @MsiProofs.Frame.op_kept
 /-- a successful save keeps the catalog in sync -/
 def finish_catalogSynced := @MsiProofs.CatalogSync.finish_catalogSynced
+
+
+/-! ### the whole life of a package made with the library -/
+
+abbrev Full := MsiProofs.CreateTable.Full
+abbrev NoOrphans := MsiProofs.FullHistory.NoOrphans
+abbrev Step := MsiProofs.Lifecycle.Step
+abbrev Admissible := MsiProofs.Lifecycle.Admissible
+abbrev runAll := MsiProofs.Lifecycle.runAll
+
+/-- an accepted `create_table` keeps every invariant and extends the catalog by the new definition -/
+def createTable_full := @MsiProofs.CreateTable.createTable_full
+/-- the state `Package::create` builds satisfies every invariant -/
+def created_full := @MsiProofs.Created.created_full
+/-- a successful save keeps every invariant -/
+def finish_core := @MsiProofs.FullHistory.finish_core
+/-- one API call (statement, `create_table`, save) keeps every invariant -/
+def step_full := @MsiProofs.Lifecycle.step_full
+/-- every state reachable from a state satisfying the invariants satisfies them -/
+def history_full := @MsiProofs.Lifecycle.history_full
+/-- `create` = base state + `create_table("_Validation")` + flush -/
+def create_unfold := @MsiProofs.Lifecycle.create_unfold
+/-- **every package made with `Package::create` reopens as it was**, after any admissible history -/
+def create_reopens := @MsiProofs.Lifecycle.create_reopens
+def created_reopens := @MsiProofs.Lifecycle.created_reopens
+
+/-- non-vacuity: `Package::create` succeeds (kernel evaluation of the model) -/
+theorem create_succeeds : (create Profile.dev 0).isOk = true := by decide +kernel
+
+/-- the package `create` returns -/
+def demoPkg : Pkg := match create Profile.dev 0 with | .ok s => s | _ => default
+
+theorem demo_created : create Profile.dev 0 = .ok demoPkg := by
+  have h := create_succeeds
+  unfold demoPkg
+  cases hc : create Profile.dev 0 with
+  | ok s => rfl
+  | err k => rw [hc] at h; cases h
+  | panic w => rw [hc] at h; cases h
+
+def demoCols : List Column :=
+  [{ Catalog.mkCol "Id" .int32 with isPrimaryKey := true }, { Catalog.mkCol "Text" (.str 20) with isNullable := true }]
+
+/-- non-vacuity: a history with an accepted `create_table`, an accepted insert, a refused insert
+(duplicate key) and a delete is admissible on the created package -/
+theorem demo_admissible : Admissible demoPkg
+    [.create "Demo".toList demoCols,
+     .dml (.insert "Demo".toList [[.int 7, .str "seven".toList], [.int 8, .null]]),
+     .dml (.insert "Demo".toList [[.int 7, .null]]),
+     .dml (.delete "Demo".toList none)] := by
+  refine ⟨Or.inr ?_, ?_, ?_, ?_, trivial⟩
+  · decide +kernel
+  · show MsiProofs.CatalogSync.isCatalogName "Demo".toList = false; decide
+  · show MsiProofs.CatalogSync.isCatalogName "Demo".toList = false; decide
+  · show MsiProofs.CatalogSync.isCatalogName "Demo".toList = false; decide
+
+/-- and the accepted calls really are accepted there -/
+theorem demo_accepted :
+    (insertExec { (createTable demoPkg "Demo".toList demoCols).1 with finisher := true } "Demo".toList
+      [[.int 7, .str "seven".toList], [.int 8, .null]]).2 = .ok () := by decide +kernel
 
 end MsiProofs.C01
